@@ -262,6 +262,7 @@ pub struct BlockFees {
 	#[serde(with = "secp_ser::string_or_u64")]
 	pub height: u64,
 	/// key id
+	#[serde(default, deserialize_with = "dalek_ser::option_identifier_from_hex")]
 	pub key_id: Option<Identifier>,
 }
 
@@ -336,7 +337,7 @@ pub struct BuiltOutput {
 	/// Blinding Factor
 	#[serde(
 		serialize_with = "secp_ser::as_hex",
-		deserialize_with = "secp_ser::blind_from_hex"
+		deserialize_with = "dalek_ser::blind_from_hex"
 	)]
 	pub blind: BlindingFactor,
 	/// Key Identifier
